@@ -1,11 +1,267 @@
 (* C14 — GeoJSON export is RFC 7946-shaped and round-trips without touching the input.
-   This file holds only statements closed by [exact] and their Print Assumptions. *)
+   This file holds only statements closed by [exact] and their Print Assumptions.
+   Model: Model/RingM.v (rings, orientation, constructor, ==) and Model/GeoJsonM.v
+   (to_geojson / from_geojson / parse_geojson / collections).  [half] is 180 degrees in the
+   integer units of the coordinates; [span_ok half r]: the vertices of r lie within 180 degrees of
+   longitude of each other (no edge is re-bounded across the antimeridian). *)
 From Coq Require Import String.
-From GV Require Import Prelude RingM GeoJsonM GeoJsonP.
+From GV Require Import Prelude RingM RingP GeoJsonM GeoJsonP.
 Open Scope string_scope.
 Open Scope Z_scope.
+
+(* --- orientation: the code's test is the sign of the shoelace area --- *)
+
+(* sum (x2-x1)(y2+y1) over the edges (as the code forms them) = -2 * signed area *)
+Theorem C14_shoelace : forall half r, span_ok half r -> xy_closed r ->
+  ccw_sum half r = - area2 r.
+Proof. exact shoelace. Qed.
+Print Assumptions C14_shoelace.
+
+(* for any ring (closed or not) the code measures the ring closed by its first vertex *)
+Theorem C14_shoelace_general : forall half r, span_ok half r ->
+  ccw_sum half r = - area2 (r ++ firstn 1 r)%list.
+Proof. exact shoelace_general. Qed.
+Print Assumptions C14_shoelace_general.
+
+Theorem C14_is_ccw_spec : forall half r, span_ok half r -> xy_closed r ->
+  (is_ccw half r = true <-> 0 <= area2 r).
+Proof. exact is_ccw_area. Qed.
+Print Assumptions C14_is_ccw_spec.
+
+(* GeoPolygon.__init__: the stored outline is closed, keeps every vertex count, and is
+   counter-clockwise (area >= 0) — clockwise (area <= 0) with _is_hole *)
+Theorem C14_constructor_normalises : forall half is_hole r, span_ok half r ->
+  let o := norm_ring half is_hole r in
+  closedb o = true /\ span_ok half o /\ (length r <= length o)%nat /\
+  (if is_hole then area2 o <= 0 else (0 <= area2 o /\ is_ccw half o = true)).
+Proof. exact norm_ring_spec. Qed.
+Print Assumptions C14_constructor_normalises.
+
+(* exterior ring counter-clockwise, holes clockwise, all closed: linear_rings of any
+   GeoPolygon built from vertex lists (this is what to_geojson writes, see C14_export_geometry) *)
+Theorem C14_exterior_ccw_holes_cw : forall half o hs,
+  span_ok half o -> Forall (span_ok half) hs ->
+  let p := mk_polygon half o (map (mk_hole half) hs) in
+  match linear_rings p with
+  | [] => False
+  | shell :: holes =>
+      closedb shell = true /\ 0 <= area2 shell /\
+      Forall (fun h => closedb h = true /\ area2 h <= 0) holes
+  end.
+Proof. exact exterior_ccw_holes_cw. Qed.
+Print Assumptions C14_exterior_ccw_holes_cw.
+
+(* a GeoBox whose nw corner really is north-west of se: closed and counter-clockwise *)
+Theorem C14_box_ccw : forall nw se, lon nw <= lon se -> lat se <= lat nw ->
+  closedb (box_ring nw se) = true /\ 0 <= area2 (box_ring nw se).
+Proof. exact box_ring_ccw. Qed.
+Print Assumptions C14_box_ccw.
+
+(* --- rings_closed --- *)
+
+Theorem C14_rings_closed_polygon : forall half orc k o hs, span_ok half o -> Forall (span_ok half) hs ->
+  all_closed (geom_rings orc k (GPoly (mk_polygon half o (map (mk_hole half) hs)))).
+Proof. exact rings_closed_polygon. Qed.
+Print Assumptions C14_rings_closed_polygon.
+
+Theorem C14_rings_closed_box : forall orc k nw se hs, all_closed hs ->
+  all_closed (geom_rings orc k (GBox nw se hs)).
+Proof. exact rings_closed_box. Qed.
+Print Assumptions C14_rings_closed_box.
+
+(* circle / ellipse: CONDITIONAL on the sampled boundary (oracle) being closed — a float fact
+   observed by the correspondence, not proved *)
+Theorem C14_rings_closed_round_conditional : forall orc k id hs,
+  closedb (o_outer orc id k) = true -> all_closed hs -> all_closed (geom_rings orc k (GRound id hs)).
+Proof. exact rings_closed_round. Qed.
+Print Assumptions C14_rings_closed_round_conditional.
+
+(* GeoRing: closed by construction (the first sample is appended), whatever the oracle returns *)
+Theorem C14_rings_closed_ring : forall orc k id hs, all_closed hs ->
+  all_closed (geom_rings orc k (GRingFull id hs)).
+Proof. exact rings_closed_ringfull. Qed.
+Print Assumptions C14_rings_closed_ring.
+
+Theorem C14_rings_closed_wedge : forall orc k id hs, o_outer orc id k <> [] -> all_closed hs ->
+  all_closed (geom_rings orc k (GWedge id hs)).
+Proof. exact rings_closed_wedge. Qed.
+Print Assumptions C14_rings_closed_wedge.
+
+(* --- export_shape --- *)
+
+(* a Feature with the geometry, the merged properties, and the extra keyword members *)
+Theorem C14_export_shape : forall orc s ups k kw, kw_ok kw ->
+  exists doc, to_geojson orc s ups k kw = JObj doc /\
+    jget "type" doc = Some (JStr "Feature") /\
+    jget "geometry" doc = Some (geometry orc k (sgeom s)) /\
+    jget "properties" doc = Some (JObj (exported_props s ups)) /\
+    (forall key v, jget key kw = Some v -> NoDup (map fst kw) -> jget key doc = Some v).
+Proof. exact export_feature. Qed.
+Print Assumptions C14_export_shape.
+
+Theorem C14_export_geometry : forall orc k g, exists C,
+  geometry orc k g = JObj [("type", JStr (geom_type g)); ("coordinates", C)].
+Proof. exact export_geometry_type. Qed.
+Print Assumptions C14_export_geometry.
+
+(* a position is [lon, lat] or [lon, lat, z] (z non-zero) *)
+Theorem C14_export_position : forall c,
+  position c = JArr [JFloat (lon c); JFloat (lat c)] \/
+  exists z, cz c = Some z /\ z <> 0 /\ position c = JArr [JFloat (lon c); JFloat (lat c); JFloat z].
+Proof. exact position_shape. Qed.
+Print Assumptions C14_export_position.
+
+(* a collection is a FeatureCollection whose n-th feature is the n-th shape's Feature with id = n *)
+Theorem C14_export_collection : forall orc l ups k, exists fs,
+  fc_to_geojson orc l ups k = JObj [("type", JStr "FeatureCollection"); ("features", JArr fs)] /\
+  length fs = length l /\
+  forall n s, nth_error l n = Some s ->
+    nth_error fs n = Some (to_geojson orc s ups k [("id", JInt (Z.of_nat n))]) /\
+    exists doc, to_geojson orc s ups k [("id", JInt (Z.of_nat n))] = JObj doc /\
+                jget "id" doc = Some (JInt (Z.of_nat n)) /\ jget "type" doc = Some (JStr "Feature").
+Proof. exact export_collection. Qed.
+Print Assumptions C14_export_collection.
+
+(* nothing but JSON values in the export when the caller adds none *)
+Theorem C14_export_serialisable : forall orc s ups k kw,
+  dict_pure (ups_dict ups) = true -> dict_pure kw = true ->
+  json_pure (to_geojson orc s ups k kw) = true.
+Proof. exact export_serialisable. Qed.
+Print Assumptions C14_export_serialisable.
+
+(* --- props_merge --- *)
+
+Theorem C14_props_merge : forall s u k, NoDup (map fst u) ->
+  jget k (exported_props s (Some u)) =
+  match jget k u with
+  | Some v => Some v
+  | None => option_map sanitize (jget k (properties s))
+  end.
+Proof. exact props_merge. Qed.
+Print Assumptions C14_props_merge.
+
+Theorem C14_props_dt_fields : forall g a b p,
+  jget "datetime_start" (properties (mkshape g (Some (a, b)) p)) = Some (JDt a) /\
+  jget "datetime_end" (properties (mkshape g (Some (a, b)) p)) = Some (JDt b).
+Proof. exact props_dt_fields. Qed.
+Print Assumptions C14_props_dt_fields.
+
+Theorem C14_props_user_fields : forall g dt p k,
+  String.eqb k "datetime_start" = false -> String.eqb k "datetime_end" = false ->
+  jget k (properties (mkshape g dt p)) = jget k p.
+Proof. exact props_user_fields. Qed.
+Print Assumptions C14_props_user_fields.
+
+(* --- round trip --- *)
+
+(* every GeoPolygon built from vertex lists (in span, z never 0, holes of non-zero area) is
+   well-formed, so the round-trip theorem applies to it *)
+Theorem C14_constructed_polygon_wf : forall half o hs,
+  span_ok half o -> (2 <= length o)%nat -> ring_zok o ->
+  Forall (fun h => span_ok half h /\ (2 <= length h)%nat /\ ring_zok h /\ area2 (close_ring h) <> 0) hs ->
+  polygon_wf half true (mk_polygon half o (map (mk_hole half) hs)).
+Proof. exact constructed_polygon_wf. Qed.
+Print Assumptions C14_constructed_polygon_wf.
+
+Theorem C14_constructed_member_wf : forall half o hs,
+  span_ok half o -> (2 <= length o)%nat -> ring_zok o ->
+  Forall (fun h => span_ok half h /\ (2 <= length h)%nat /\ ring_zok h) hs ->
+  polygon_wf half false (mk_polygon half o (map (mk_hole half) hs)).
+Proof. exact constructed_member_wf. Qed.
+Print Assumptions C14_constructed_member_wf.
+
+(* export then import, for the six importable kinds (any number of vertices, holes, parts):
+   the very same geometry, the same dt, the properties merged with the override; the
+   document comes back unchanged *)
+Theorem C14_geojson_roundtrip : forall half orc s ups k kw kd,
+  kind_of (sgeom s) = Some kd -> geom_wf half (sgeom s) -> dt_wf (sdt s) ->
+  dict_pure (sprops s) = true -> no_reserved (sprops s) -> no_reserved (ups_dict ups) -> kw_ok kw ->
+  from_geojson half kd (to_geojson orc s ups k kw) =
+  Ok (mkshape (sgeom s) (sdt s) (dmerge (sprops s) (ups_dict ups)), to_geojson orc s ups k kw).
+Proof. exact geojson_roundtrip. Qed.
+Print Assumptions C14_geojson_roundtrip.
+
+(* ... and the imported shape == the original (both ways), with the library's own == *)
+Theorem C14_geojson_roundtrip_eq : forall half orc s ups k kw kd,
+  kind_of (sgeom s) = Some kd -> geom_wf half (sgeom s) -> dt_wf (sdt s) ->
+  dict_pure (sprops s) = true -> no_reserved (sprops s) -> no_reserved (ups_dict ups) -> kw_ok kw ->
+  exists s', from_geojson half kd (to_geojson orc s ups k kw) = Ok (s', to_geojson orc s ups k kw) /\
+             shape_eqb s' s = true /\ shape_eqb s s' = true /\ sdt s' = sdt s /\
+             sprops s' = dmerge (sprops s) (ups_dict ups).
+Proof. exact geojson_roundtrip_eq. Qed.
+Print Assumptions C14_geojson_roundtrip_eq.
+
+(* the type-dispatching parser reaches the same from_geojson *)
+Theorem C14_parse_dispatch : forall half orc s ups k kw kd,
+  kind_of (sgeom s) = Some kd -> kw_ok kw ->
+  parse_geojson half (to_geojson orc s ups k kw) =
+  match from_geojson half kd (to_geojson orc s ups k kw) with
+  | Ok (s', d) => Ok (PShape s', d)
+  | Err e => Err e
+  end.
+Proof. exact parse_dispatch. Qed.
+Print Assumptions C14_parse_dispatch.
+
+Theorem C14_collection_roundtrip : forall half orc l ups k,
+  Forall (shape_ok half) l -> no_reserved (ups_dict ups) ->
+  fc_from_geojson half (fc_to_geojson orc l ups k) =
+  Ok (map (reimported ups) l, fc_to_geojson orc l ups k).
+Proof. exact collection_roundtrip. Qed.
+Print Assumptions C14_collection_roundtrip.
+
+(* D14 (known finding): a coordinate with z = 0 does not survive the round trip *)
+Theorem C14_z_zero_roundtrip_refuted :
+  exists orc s s' d, kind_of (sgeom s) = Some KPoint /\
+    from_geojson 720 KPoint (to_geojson orc s None None []) = Ok (s', d) /\ shape_eqb s' s = false.
+Proof. exact z_zero_roundtrip_refuted. Qed.
+Print Assumptions C14_z_zero_roundtrip_refuted.
+
+(* --- the import leaves the caller's document alone --- *)
 
 Theorem C14_import_pure : forall half k doc s doc',
   from_geojson half k doc = Ok (s, doc') -> doc' = doc.
 Proof. exact import_pure. Qed.
 Print Assumptions C14_import_pure.
+
+Theorem C14_parse_pure : forall half doc p doc', parse_geojson half doc = Ok (p, doc') -> doc' = doc.
+Proof. exact parse_pure. Qed.
+Print Assumptions C14_parse_pure.
+
+Theorem C14_import_twice_equal : forall half k doc s doc',
+  from_geojson half k doc = Ok (s, doc') -> from_geojson half k doc' = Ok (s, doc').
+Proof. exact import_twice_equal. Qed.
+Print Assumptions C14_import_twice_equal.
+
+(* the pinned code (before repair D15: properties popped in place) fails both *)
+Theorem C14_import_pure_refuted_without_copy :
+  exists doc s doc' s2 doc2,
+    from_geojson_gen 720 false KPoint doc = Ok (s, doc') /\ doc' <> doc /\
+    from_geojson_gen 720 false KPoint doc' = Ok (s2, doc2) /\ sdt s = Some (5, 5) /\ sdt s2 = None.
+Proof. exact import_pure_refuted_without_copy. Qed.
+Print Assumptions C14_import_pure_refuted_without_copy.
+
+(* non-vacuity: a polygon with a clockwise, unclosed outline and a hole, an interval dt and nested
+   properties meets every hypothesis above, and the round trip computes *)
+Definition ex_sq : ring := [mkc 0 0 None; mkc 0 40 None; mkc 40 40 None; mkc 40 0 None].
+Definition ex_hole : ring := [mkc 8 8 (Some 3); mkc 12 8 (Some 3); mkc 12 12 (Some 3); mkc 8 8 (Some 3)].
+Definition ex_shape : shape :=
+  mkshape (GPoly (mk_polygon 720 ex_sq (map (mk_hole 720) [ex_hole]))) (Some (5, 9))
+          [("a", JInt 1); ("n", JObj [("l", JArr [JFloat 10; JNull])])].
+Definition ex_orc : oracle := mkoracle (fun _ _ => []) (fun _ _ => []).
+
+Example C14_nonvacuous :
+  (forall a b, In a ex_sq -> In b ex_sq -> Z.abs (lon a - lon b) <= 720) /\
+  is_ccw 720 ex_sq = false /\ closedb ex_sq = false /\ area2 (close_ring ex_hole) <> 0 /\
+  kind_of (sgeom ex_shape) = Some KPoly /\ dt_wf (sdt ex_shape) /\
+  dict_pure (sprops ex_shape) = true /\ no_reserved (sprops ex_shape) /\
+  kw_ok [("id", JInt 7)] /\
+  (exists d, from_geojson 720 KPoly (to_geojson ex_orc ex_shape (Some [("a", JInt 2)]) None [("id", JInt 7)]) =
+             Ok (mkshape (sgeom ex_shape) (Some (5, 9))
+                         [("a", JInt 2); ("n", JObj [("l", JArr [JFloat 10; JNull])])], d)) /\
+  length (outline (mk_polygon 720 ex_sq [])) = 5%nat.
+Proof.
+  split.
+  { intros a b Ha Hb. cbn in Ha, Hb.
+    repeat (destruct Ha as [<-|Ha]; [repeat (destruct Hb as [<-|Hb]; [cbn; lia|]); destruct Hb|]). destruct Ha. }
+  vm_compute. repeat split; try discriminate. eexists. reflexivity.
+Qed.
